@@ -39,3 +39,28 @@ Print Assumptions C08_export_orders.
 
 Example C08_nonvacuous : wf_v5 sample_v5.
 Proof. exact sample_v5_wf. Qed.
+
+(* ---- buffer level (imports kept local) ---- *)
+From NF Require Import RunFacts RoundtripFacts.
+
+(* THE ROUND TRIP over a whole buffer: whatever parse_bytes reports for a buffer -- any mix of
+   V5, V7, V9 and IPFIX packets, any state, any allowed set -- if every reported element is of the
+   lossless kind (V5/V7 always; V9: v9_lossless; IPFIX: ix_lossless for the caches the message
+   met; no error element), then the concatenation of the elements' to_be_bytes is exactly the
+   prefix of the buffer they occupied: buffer = that concatenation ++ the unconsumed rest. *)
+Theorem C08_buffer_roundtrip : forall puf allow s x r,
+  parse_bytes puf allow s x = Some r -> lossless_run s r = true ->
+  exists pre rest, x = pre ++ rest /\ export_run r = XOk pre /\ length pre = total_wire (map fst r).
+Proof. intros puf allow s x r. unfold parse_bytes. apply run_reexport. Qed.
+Print Assumptions C08_buffer_roundtrip.
+
+(* V5 and V7 packets are always of the lossless kind: a buffer of fixed-format packets re-exports
+   to itself up to the unconsumed rest *)
+Theorem C08_fixed_always_lossless : forall s r,
+  Forall (fun es => match fst es with PV5 _ | PV7 _ => True | _ => False end) r -> lossless_run s r = true.
+Proof.
+  intros s r. revert s. induction r as [|[e s'] r IH]; intros s H; [reflexivity|].
+  inversion H as [|? ? He Hr]; subst. cbn [lossless_run]. rewrite (IH s' Hr).
+  cbn [fst] in He. destruct e; try contradiction; reflexivity.
+Qed.
+Print Assumptions C08_fixed_always_lossless.
